@@ -1580,8 +1580,9 @@ fn boundary(rec: &mut Recorder, z: &ZoneSpec) {
         let why = format!("synthetic link {} -> {} around H({x}) = {}: the hash lies {} it", hex(&o), hex(&n), hex(&hx), if covered { "strictly inside" } else { "NOT strictly inside" });
         // wildcard answer: the next closer cover alone decides
         run_expect(&mk(&x, T_A, 0, Some(wlb), vec![s.clone()]), rec, "boundary.plusminus", Some(covered), None, &why);
-        // Opt-Out DS for x.b.<apex>
-        run_expect(&mk(&x, T_DS, 0, None, vec![clear(s.clone(), true)]), rec, "boundary.plusminus", Some(covered), None, &why);
+        // Opt-Out DS for x.b.<apex>: a link OWNED by the hash is a matching record without DS — a plain NODATA proof
+        let ds_ok = covered || o == hx;
+        run_expect(&mk(&x, T_DS, 0, None, vec![clear(s.clone(), true)]), rec, "boundary.plusminus", Some(ds_ok), None, &if o == hx { format!("link owned by H({x}): it matches QNAME and its bitmap has no DS") } else { why.clone() });
         // name error: closest encloser b.<apex> (genuine), the synthetic link for the next closer, the true cover of *.b? (exists: use
         // the query below a.<apex> instead, where no wildcard exists)
         let xa = name_of(&rel_name(&z.apex, &[b"x", b"a"]));
@@ -1591,6 +1592,8 @@ fn boundary(rec: &mut Recorder, z: &ZoneSpec) {
         if let (Some(ce), Some(wc)) = (find_match(&name_of(&rel_name(&z.apex, &[b"a"]))), find_cover(&name_of(&rel_name(&z.apex, &[b"*", b"a"])))) {
             let s2 = RecIn { owner: z.apex.prepend_label(&b32(&o2)[..]).unwrap(), next: n2.clone(), opt_out: false, iterations: z.iterations, salt: z.salt.clone(), types: vec![T_A, T_RRSIG] };
             let recs = vec![clear(ch[ce].1.clone(), false), s2, clear(ch[wc].1.clone(), false)];
+            // a genuine record of the set may cover the next closer name all the same; a link owned by the hash matches QNAME
+            let cov2 = o2 != hxa && (cov2 || [ce, wc].iter().any(|i| inside(&ch[*i].0, &ch[*i].1.next, &hxa)));
             run_expect(&mk(&xa, T_A, 3, None, recs), rec, "boundary.plusminus", Some(cov2), None, &format!("name error for {xa}: synthetic link {} -> {} around its hash {}: {} it", hex(&o2), hex(&n2), hex(&hxa), if cov2 { "strictly inside" } else { "NOT strictly inside" }));
         }
     }
